@@ -128,13 +128,26 @@ func (this *Conn) AddNode(id uint64, address string) {
 	this.addressesMu.Lock()
 	defer this.addressesMu.Unlock()
 
-	if _, exists := this.addresses[id]; !exists {
+	existingAddress, exists := this.addresses[id]
+	if !exists {
 		this.addresses[id] = address
 		this.sendNodesChangeNotification(&nodesChange {
 			Type: NodesChangeAddNode,
 			NodeId: id,
 		})
 		this.log.Infof("Conn: Added node: %16x", id)
+	} else if existingAddress != address && len(address) > 0 {
+		// The node announced a new address. Drop the connection to the old one.
+		this.addresses[id] = address
+		this.connsMu.Lock()
+		if conn, exists := this.conns[id]; exists {
+			if err := conn.Close(); err != nil {
+				log.Error(err)
+			}
+			delete(this.conns, id)
+		}
+		this.connsMu.Unlock()
+		this.log.Infof("Conn: Updated address of node: %16x", id)
 	}
 }
 
